@@ -243,9 +243,23 @@ func CheckC07Chain(h *History, blk *BlockRecord) []Violation {
 				n++
 			}
 		}
-		if rCur.LT(rPrev) {
+		// if the unbonds of this block could have redeemed every share that existed before, the vault may
+		// have passed through zero shares; the next bond then starts a new share series at rate 1 and no
+		// earlier lender is left whose shares could have lost value
+		unbonded := sdkmath.ZeroInt()
+		for _, tx := range blk.Txs {
+			if m, ok := tx.Msg.(*sstypes.MsgUnbond); ok && tx.Code == 0 {
+				unbonded = unbonded.Add(m.Amount)
+			}
+		}
+		if unbonded.GTE(supPrev) {
+			h.Labels["c07-vault-emptied-in-block"]++
+		} else if rCur.LT(rPrev) {
 			allow := rPrev.Ceil().TruncateInt().AddRaw(1).MulRaw(n)
-			maxDrop := allow.ToLegacyDec().Quo(sdkmath.MinInt(supPrev, supCur).ToLegacyDec())
+			// the supply may have been as low as supPrev - (everything unbonded in this block) in between:
+			// one share's worth of rounding is a larger fraction of the rate there
+			low := sdkmath.MinInt(sdkmath.MinInt(supPrev, supCur), supPrev.Sub(unbonded))
+			maxDrop := allow.ToLegacyDec().Quo(low.ToLegacyDec())
 			if rPrev.Sub(rCur).GT(maxDrop) {
 				out = append(out, Violation{Sig: "C07/share-value-fell", Detail: fmt.Sprintf("vault share value fell %s -> %s in one block (%d bond/unbond txs; allowed drop %s) (height %d; %s)", rPrev, rCur, n, maxDrop, h.Cur.Height, blockSummary(blk))})
 			}
